@@ -128,7 +128,9 @@ def run():
             rid = f"{si}.{emb}"
             reqs.append({"id": rid, "mode": "session", "embed": emb, "progs": [POOL[p] for p in idx], "helpers": helpers(idx), "shared": SHARED, "stdin": "l1\nl2\n", "deadline_ms": 20000})
             meta[rid] = (emb, idx)
-    out = run_cases(reqs, label="C19 sessions")
+    # a `pangaea test` run is a process of its own: its sessions get one each (the built-in objects, and whatever natives close over, are per process)
+    out = run_cases([r for r in reqs if r["embed"] != "runtest"], label="C19 sessions")
+    out.update(run_cases([r for r in reqs if r["embed"] == "runtest"], label="C19 test-driver sessions", isolate=True))
     rows, full = [], {}
     for rid, (emb, idx) in meta.items():
         o = out[rid]
